@@ -20,6 +20,8 @@ FromJ(x) ==
                    IF x[k].m = "-" THEN NoEntry
                    ELSE [m |-> x[k].m, h |-> IF x[k].h \in {"none", "D"} THEN NoH ELSE FileH(x[k].h)]]
     IN [k \in Keys |-> IF x[k].h = "D" THEN [m |-> base[k].m, h |-> DirH(Sig(base, k))] ELSE base[k]]
+ViewKeys == {k \in Keys : k = "a" \/ Under(k, "a")}
+KeepA(idx) == [k \in Keys |-> IF k \in ViewKeys THEN idx[k] ELSE NoEntry]
 CallRec == Recs[i].calls[j]
 OptsOf(c) == [unchanged |-> c.opts.unchanged, hash_only |-> c.opts.hash_only, meta_only |-> c.opts.meta_only,
               shallow |-> c.opts.shallow, key |-> c.opts.key]
@@ -28,7 +30,10 @@ Triples(sq) == {IF Len(sq[x]) = 3 THEN <<sq[x][1], sq[x][2], sq[x][3]>> ELSE <<s
 
 TraceInit ==
     /\ i \in 1..Len(Recs) /\ j \in 1..Len(Recs[i].calls)
-    /\ old = FromJ(Recs[i].o) /\ new = FromJ(Recs[i].n)
+    \* (view: both sides are filtered views keeping the keys at or below "a" - the filter rejects the root key itself;
+    \* diffing them is diffing the restricted indexes)
+    /\ old = (IF Recs[i].calls[j].opts.view THEN KeepA(FromJ(Recs[i].o)) ELSE FromJ(Recs[i].o))
+    /\ new = (IF Recs[i].calls[j].opts.view THEN KeepA(FromJ(Recs[i].n)) ELSE FromJ(Recs[i].n))
     /\ opts = OptsOf(Recs[i].calls[j])
     /\ queue = InitQueue(old, new) /\ out = {} /\ pc = "bfs"
 TraceNext == Next /\ UNCHANGED <<i, j>>
